@@ -34,21 +34,21 @@ Theorem single_sided_view_parts k old new ops ic dc body : k <> KCombined ->
   d_head v = d_head (base_of k old new) ++ [style_node ic dc] /\ d_body v = body ++ [script_node].
 Proof. destruct k; intros H; [congruence| |]; cbn; split; reflexivity. Qed.
 
-Lemma deactivate_style ic dc : deactivate false (style_node ic dc) = style_node ic dc.
+Lemma deactivate_style ic dc : deactivate false (style_node ic dc) = [style_node ic dc].
 Proof. reflexivity. Qed.
-Lemma deactivate_script : deactivate false script_node = script_node.
+Lemma deactivate_script : deactivate false script_node = [script_node].
 Proof. reflexivity. Qed.
-Lemma deactivate_meta ops : deactivate false (title_meta ops) = title_meta ops.
+Lemma deactivate_meta ops : deactivate false (title_meta ops) = [title_meta ops].
 Proof. reflexivity. Qed.
 
 Theorem combined_view_parts old new ops ic dc body :
   let v := view_doc KCombined old new ops ic dc body in
-  d_head v = map (deactivate false) (d_head new) ++
-             [title_meta ops; SEl (s2l "template") [(s2l "id", s2l "wm-diff-old-head")] false (map (deactivate false) (d_head old));
+  d_head v = flat_map (deactivate false) (d_head new) ++
+             [title_meta ops; SEl (s2l "template") [(s2l "id", s2l "wm-diff-old-head")] false (flat_map (deactivate false) (d_head old));
               style_node ic dc] /\
-  d_body v = map (deactivate false) body ++ [script_node].
+  d_body v = flat_map (deactivate false) body ++ [script_node].
 Proof.
-  cbn [view_doc d_head d_body]. rewrite !map_app. cbn [map]. split; reflexivity.
+  cbn [view_doc d_head d_body]. rewrite !flat_map_app. cbn [flat_map]. rewrite !app_nil_r. split; reflexivity.
 Qed.
 
 (* trees without a <del> element are left alone *)
@@ -58,22 +58,38 @@ Fixpoint has_del (n : snode) : bool :=
   | SEl name _ _ cs => str_eqb name (s2l "del") || existsb has_del cs
   end.
 
-Lemma no_del_no_deleted_active n : has_del n = false -> deleted_active false n = false.
+Lemma flat_map_singletons {A} (f : A -> list A) l : Forall (fun x => f x = [x]) l -> flat_map f l = l.
+Proof. induction 1 as [|x l Hx _ IH]; [reflexivity|]. cbn [flat_map]. rewrite Hx, IH. reflexivity. Qed.
+Lemma flat_map_nils {A B} (f : A -> list B) l : Forall (fun x => f x = []) l -> flat_map f l = [].
+Proof. induction 1 as [|x l Hx _ IH]; [reflexivity|]. cbn [flat_map]. rewrite Hx, IH. reflexivity. Qed.
+
+Lemma Forall_has_del (P : snode -> Prop) cs :
+  Forall (fun n => has_del n = false -> P n) cs -> existsb has_del cs = false -> Forall P cs.
 Proof.
-  induction n as [s|name a v cs IH] using snode_ind'; intros H; [reflexivity|].
-  cbn [has_del] in H. apply orb_false_iff in H as [Hn Hc]. cbn [deleted_active andb]. rewrite Hn. cbn [orb].
-  induction cs as [|c cs IHcs]; [reflexivity|]. cbn [existsb] in Hc. apply orb_false_iff in Hc as [H1 H2].
-  inversion IH as [|? ? Hc1 Hcs]; subst. cbn [existsb]. rewrite (Hc1 H1). cbn [orb]. apply IHcs; assumption.
+  induction 1 as [|c cs Hc _ IH]; intros H; [constructor|]. cbn [existsb] in H. apply orb_false_iff in H as [H1 H2].
+  constructor; [exact (Hc H1)|exact (IH H2)].
 Qed.
 
-Lemma deactivate_no_del n : has_del n = false -> deactivate false n = n.
+Lemma no_del_no_deleted_actives n : has_del n = false -> deleted_actives false n = [].
+Proof.
+  induction n as [s|name a v cs IH] using snode_ind'; intros H; [reflexivity|].
+  cbn [has_del] in H. apply orb_false_iff in H as [Hn Hc]. cbn [deleted_actives andb]. unfold is_del. rewrite Hn. cbn [orb].
+  apply flat_map_nils. exact (Forall_has_del _ cs IH Hc).
+Qed.
+Lemma no_del_strip_id n : has_del n = false -> strip_deleted_actives false n = [n].
+Proof.
+  induction n as [s|name a v cs IH] using snode_ind'; intros H; [reflexivity|].
+  cbn [has_del] in H. apply orb_false_iff in H as [Hn Hc]. cbn [strip_deleted_actives andb]. unfold is_del. rewrite Hn. cbn [orb].
+  do 2 f_equal. apply flat_map_singletons. exact (Forall_has_del _ cs IH Hc).
+Qed.
+
+Lemma deactivate_no_del n : has_del n = false -> deactivate false n = [n].
 Proof.
   induction n as [s|name a v cs IH] using snode_ind'; intros H; [reflexivity|].
   cbn [deactivate]. destruct (is_foreign name) eqn:F.
-  { rewrite (no_del_no_deleted_active _ H). reflexivity. }
-  cbn [has_del] in H. apply orb_false_iff in H as [Hn Hc]. cbn [andb]. rewrite Hn. cbn [orb]. f_equal.
-  induction cs as [|c cs IHcs]; [reflexivity|]. cbn [existsb] in Hc. apply orb_false_iff in Hc as [H1 H2].
-  inversion IH as [|? ? Hc1 Hcs]; subst. cbn [map]. rewrite (Hc1 H1). f_equal. apply IHcs; assumption.
+  { rewrite (no_del_no_deleted_actives _ H), (no_del_strip_id _ H). reflexivity. }
+  cbn [has_del] in H. apply orb_false_iff in H as [Hn Hc]. cbn [andb]. unfold is_del. rewrite Hn. cbn [orb].
+  do 2 f_equal. apply flat_map_singletons. exact (Forall_has_del _ cs IH Hc).
 Qed.
 
 Theorem combined_head_unchanged_without_del old new ops ic dc body :
@@ -82,9 +98,9 @@ Theorem combined_head_unchanged_without_del old new ops ic dc body :
   d_head new ++ [title_meta ops; old_head_template (d_head old); style_node ic dc].
 Proof.
   intros Hn Ho. rewrite (proj1 (combined_view_parts old new ops ic dc body)).
-  assert (M : forall l, forallb (fun n => negb (has_del n)) l = true -> map (deactivate false) l = l).
-  { induction l as [|x l IH]; intros H; [reflexivity|]. cbn [forallb] in H. apply andb_true_iff in H as [H1 H2].
-    cbn [map]. rewrite deactivate_no_del by (apply negb_true_iff, H1). rewrite IH by exact H2. reflexivity. }
+  assert (M : forall l, forallb (fun n => negb (has_del n)) l = true -> flat_map (deactivate false) l = l).
+  { intros l H. apply flat_map_singletons. apply Forall_forall. intros x Hx.
+    rewrite forallb_forall in H. apply deactivate_no_del, negb_true_iff, H, Hx. }
   rewrite (M _ Hn), (M _ Ho). reflexivity.
 Qed.
 
@@ -112,22 +128,18 @@ Proof. reflexivity. Qed.
 Lemma template_not_foreign : is_foreign (s2l "template") = false.
 Proof. reflexivity. Qed.
 
+Lemma forallb_flat_map {A B} (p : B -> bool) (f : A -> list B) l :
+  (forall x, In x l -> forallb p (f x) = true) -> forallb p (flat_map f l) = true.
+Proof.
+  intros H. apply forallb_forall. intros y Hy. apply in_flat_map in Hy as [x [Hx Hy]].
+  specialize (H x Hx). rewrite forallb_forall in H. exact (H y Hy).
+Qed.
+
 Lemma inert_ok_below_inert n : forall u f, inert_ok u true f n = true.
 Proof.
   induction n as [s|name a v cs IH] using snode_ind'; intros u f; [reflexivity|].
   cbn [inert_ok orb]. rewrite orb_true_r. cbn [andb].
   apply forallb_forall. intros c Hin. rewrite Forall_forall in IH. apply (IH c Hin).
-Qed.
-
-Lemma inert_ok_no_deleted_active n : forall u ia f, deleted_active u n = false -> inert_ok u ia f n = true.
-Proof.
-  induction n as [s|name a v cs IH] using snode_ind'; intros u ia f H; [reflexivity|].
-  cbn [deleted_active] in H. apply orb_false_iff in H as [H1 H2].
-  cbn [inert_ok]. rewrite H1. cbn [negb orb andb].
-  apply forallb_forall. intros c Hin. rewrite Forall_forall in IH. apply (IH c Hin).
-  destruct (deleted_active (u || str_eqb name (s2l "del")) c) eqn:E; [|reflexivity].
-  assert (X : existsb (deleted_active (u || str_eqb name (s2l "del"))) cs = true) by (apply existsb_exists; exists c; split; assumption).
-  congruence.
 Qed.
 
 Lemma inert_wrap_ok u ia n : inert_ok u ia false (inert_wrap n) = true.
@@ -137,26 +149,39 @@ Proof.
   cbn [negb andb]. rewrite orb_true_r, andb_true_r. apply inert_ok_below_inert.
 Qed.
 
-Theorem deactivate_inert n : forall u ia, inert_ok u ia false (deactivate u n) = true.
+(* what is left of a tree once its deleted scripts/styles are taken out has none *)
+Lemma strip_inert n : forall u ia f, forallb (inert_ok u ia f) (strip_deleted_actives u n) = true.
+Proof.
+  induction n as [s|name a v cs IH] using snode_ind'; intros u ia f; [reflexivity|].
+  cbn [strip_deleted_actives]. destruct (u && is_active name) eqn:E; [reflexivity|].
+  cbn [forallb inert_ok]. rewrite E. cbn [negb orb andb]. rewrite andb_true_r.
+  unfold is_del. apply forallb_flat_map. intros c Hin. rewrite Forall_forall in IH. apply (IH c Hin).
+Qed.
+
+Theorem deactivate_inert n : forall u ia, forallb (inert_ok u ia false) (deactivate u n) = true.
 Proof.
   induction n as [s|name a v cs IH] using snode_ind'; intros u ia; [reflexivity|].
   cbn [deactivate]. destruct (is_foreign name) eqn:F.
-  - destruct (deleted_active u (SEl name a v cs)) eqn:D; [apply inert_wrap_ok|].
-    apply inert_ok_no_deleted_active. exact D.
+  - rewrite forallb_app. rewrite strip_inert. cbn [andb].
+    apply forallb_forall. intros x Hx. apply in_map_iff in Hx as [y [<- _]]. apply inert_wrap_ok.
   - assert (Hkids : forall ia', forallb (inert_ok (u || str_eqb name (s2l "del")) ia' false)
-                            (map (deactivate (u || str_eqb name (s2l "del"))) cs) = true).
-    { intros ia'. apply forallb_forall. intros c' Hin'. apply in_map_iff in Hin' as [c [<- Hin]].
-      rewrite Forall_forall in IH. apply (IH c Hin). }
-    destruct (u && is_active name) eqn:E; [apply inert_wrap_ok|].
+                            (flat_map (deactivate (u || is_del name)) cs) = true).
+    { intros ia'. unfold is_del. apply forallb_flat_map. intros c Hin. rewrite Forall_forall in IH. apply (IH c Hin). }
+    destruct (u && is_active name) eqn:E; cbn [forallb]; rewrite andb_true_r; [apply inert_wrap_ok|].
     cbn [inert_ok]. rewrite E, F. cbn [negb orb andb]. apply Hkids.
 Qed.
+
+(* the deleted scripts/styles of a graphic are moved, not dropped: each one is in the result, wrapped, in document order *)
+Lemma deactivate_foreign_keeps_actives name a v cs u : is_foreign name = true ->
+  exists rest, deactivate u (SEl name a v cs) = rest ++ map inert_wrap (deleted_actives u (SEl name a v cs)).
+Proof. intros F. cbn [deactivate]. rewrite F. eexists. reflexivity. Qed.
 
 (* in the combined view every script/style below a deletion marker sits in an inert template *)
 Theorem combined_view_inert old new ops ic dc body :
   let v := view_doc KCombined old new ops ic dc body in
   forallb (inert_ok false false false) (d_body v) = true /\ forallb (inert_ok false false false) (d_head v) = true.
 Proof.
-  cbn [view_doc d_body d_head]. split; apply forallb_forall; intros x Hx; apply in_map_iff in Hx as [n [<- _]]; apply deactivate_inert.
+  cbn [view_doc d_body d_head]. split; apply forallb_flat_map; intros x _; apply deactivate_inert.
 Qed.
 
 (* ------------------------------------------------------------------ the title diff reads back into both titles *)
